@@ -1,5 +1,87 @@
 package main
 
-// canonicalSig maps the generic signature of a leaf to the signature of the triaged defect it belongs
-// to (FINDINGS.md); unknown signatures are returned unchanged.
-func canonicalSig(sig string) string { return sig }
+import "regexp"
+
+// canonicalSig maps the generic signature of a leaf
+//
+//	C09/<Type.Method>/<operand class>/<aspect>:<smallest reproducing deviation>
+//
+// to the signature of the triaged defect it is a symptom of (FINDINGS.md): one defect shows up
+// under several wrapper methods (AddNew -> Add), operand classes (int, int64, uint64 all go through the
+// *big.Int path) and deviations (an output scale that is never written is visible both as "depends on
+// the previous metadata of the output" and as "out==op0 differs from a fresh output"). Unknown
+// signatures are returned unchanged, so anything that is not one of the triaged defects stays visible
+// under its generic name.
+func canonicalSig(sig string) string {
+	for _, r := range sigRules {
+		if r.re.MatchString(sig) {
+			return r.re.ReplaceAllString(sig, r.to)
+		}
+	}
+	return sig
+}
+
+type sigRule struct {
+	re *regexp.Regexp
+	to string
+}
+
+func rule(re, to string) sigRule { return sigRule{regexp.MustCompile("^C09/" + re + "$"), "C09/" + to} }
+
+const (
+	bgvMulFamily = `(?:Mul|MulNew|MulRelin|MulRelinNew|MulScaleInvariant|MulScaleInvariantNew|MulRelinScaleInvariant|MulRelinScaleInvariantNew)`
+	bgvScalar    = `(?:bigint|int|int64|uint64)`
+	ckksScalar   = `(?:complex128|float64|int|int64|uint|uint64|bigint|bigfloat|bigcomplex)`
+	scaleSymptom = `result:meta:Scale:(?:alias:out==op0|out-history:dirty-meta)`
+)
+
+var sigRules = []sigRule{
+	// F01 bgv: *big.Int operand normalised in place
+	rule(`bgv\.Evaluator\.(?:Add|AddNew)/bigint/input-modified:op1:.*`, `bgv.Evaluator.Add/bigint/operand-normalised-in-place`),
+	rule(`bgv\.Evaluator\.`+bgvMulFamily+`/bigint/input-modified:op1:.*`, `bgv.Evaluator.Mul/bigint/operand-normalised-in-place`),
+	rule(`bgv\.Evaluator\.(?:MulThenAdd|MulRelinThenAdd)/bigint/input-modified:op1:.*`, `bgv.Evaluator.MulThenAdd/bigint/operand-normalised-in-place`),
+	// F02 bgv: scalar operand, scale of a distinct output never written
+	rule(`bgv\.Evaluator\.(?:Add|Sub)/`+bgvScalar+`/`+scaleSymptom, `bgv.Evaluator.Add/scalar/output-scale-not-set`),
+	rule(`bgv\.Evaluator\.`+bgvMulFamily+`/`+bgvScalar+`/`+scaleSymptom, `bgv.Evaluator.Mul/scalar/output-scale-not-set`),
+	// F03 bgv: equal-scale Add/Sub leave the components above the operands' degree of a larger output untouched
+	rule(`bgv\.Evaluator\.(Add|Sub)/(?:ct-ct|ct-ct/degree|ct-pt)/result:value:out-history:larger-degree`, `bgv.Evaluator.$1/element/larger-degree-output-keeps-old-component`),
+	rule(`bgv\.Evaluator\.(Add|Sub)/ct-ct/scale/result:value:alias:op0==op1\+out-history:larger-degree`, `bgv.Evaluator.$1/element/larger-degree-output-keeps-old-component`),
+	// F04 bgv: scale matching writes the output before reading op1
+	rule(`bgv\.Evaluator\.(Add|Sub)/ct-ct/scale/result:value:alias:out==op1`, `bgv.Evaluator.$1/ct-ct/scale/out==op1-wrong-value`),
+	// F05 bgv: Rescale indexes op0.Value over the output's degree
+	rule(`bgv\.Evaluator\.Rescale/ct/panic:out-history:larger-degree`, `bgv.Evaluator.Rescale/ct/larger-degree-output-panics`),
+	// F06 bfv tensoring: scale computed from the swapped operands
+	rule(`bgv\.Evaluator\.`+bgvMulFamily+`/ct-ct/scale/result:meta:Scale:alias:out==op1`, `bgv.Evaluator.MulScaleInvariant/ct-ct/scale/out==op1-wrong-scale`),
+	// F07 bgv: Sub(ct deg 1, ct deg 2) copies the degree-2 term without negating it
+	rule(`bgv\.Evaluator\.Sub/ct-ct/degree/result:value:alias:out==op0`, `bgv.Evaluator.Sub/ct-ct/degree/higher-degree-term-not-negated`),
+	// F08 rlwe.PartialTracesSum (and its wrappers) keep the degree of a larger output
+	rule(`(?:bgv\.Evaluator\.(?:InnerSum|RotateAndAdd)|ckks\.Evaluator\.(?:InnerSum|RotateAndAdd)|rlwe\.Evaluator\.(?:PartialTracesSum|Replicate))/ct/result:value:out-history:larger-degree`,
+		`rlwe.Evaluator.PartialTracesSum/ct/larger-degree-output-keeps-old-component`),
+	// F09 ckks: scalar Add/Sub, scale of a distinct output never written
+	rule(`ckks\.Evaluator\.(Add|Sub)/`+ckksScalar+`/`+scaleSymptom, `ckks.Evaluator.$1/scalar/output-scale-not-set`),
+	// F10 ckks: Add/Sub into a larger-degree output
+	rule(`ckks\.Evaluator\.(Add|Sub)/(?:ct-ct|ct-ct/degree|ct-ct/scale|ct-pt|ct-pt/scale)/result:value:out-history:larger-degree`, `ckks.Evaluator.$1/element/larger-degree-output-keeps-old-component`),
+	// F11 ckks: MulThenAdd with a non-integer scalar does not reject opOut == op0
+	rule(`ckks\.Evaluator\.(?:MulThenAdd|MulRelinThenAdd)/`+ckksScalar+`/result:value:alias:out==op0`, `ckks.Evaluator.MulThenAdd/scalar/out==op0-not-rejected-wrong-value`),
+	// F12, F13 ckks.Average
+	rule(`ckks\.Evaluator\.Average/ct/result:meta(?::Scale)?:alias:out==op0`, `ckks.Evaluator.Average/ct/output-metadata-not-set`),
+	rule(`ckks\.Evaluator\.Average/ct/result:(?:level|value):out-history:larger-level`, `ckks.Evaluator.Average/ct/larger-level-output-not-resized`),
+	// F14 ckks.Encoder: coefficient-domain encoding of a short []*big.Float
+	rule(`ckks\.Encoder\.Encode/\[\]bigfloat/result:value:out-history:dirty-words`, `ckks.Encoder.Encode/[]bigfloat/coefficient-domain-tail-not-zeroed`),
+	// F15 rlwe.ApplyEvaluationKey
+	rule(`rlwe\.Evaluator\.ApplyEvaluationKey/ct/result:(?:level|value):out-history:larger-level`, `rlwe.Evaluator.ApplyEvaluationKey/ct/larger-level-output-not-resized`),
+	// F16, F17 rlwe.InnerFunction
+	rule(`rlwe\.Evaluator\.InnerFunction/ct/result:value:out-history:larger-degree`, `rlwe.Evaluator.InnerFunction/ct/larger-degree-output-keeps-old-component`),
+	rule(`rlwe\.Evaluator\.InnerFunction/ct/result:(?:meta|value):alias:out==ctIn`, `rlwe.Evaluator.InnerFunction/ct/out==ctIn-coefficient-domain-result-left-in-NTT`),
+	// F18 rlwe.Trace
+	rule(`rlwe\.Evaluator\.Trace/ct/result:(?:meta|value):alias:out==ctIn`, `rlwe.Evaluator.Trace/ct/out==ctIn-coefficient-domain-result-left-in-NTT`),
+	// F19 rlwe.Decryptor
+	rule(`rlwe\.Decryptor\.Decrypt/ct/result:value:out-history:larger-level`, `rlwe.Decryptor.Decrypt/ct/larger-level-plaintext-Value-not-resized`),
+	// F20 rgsw.ExternalProduct
+	rule(`rgsw\.Evaluator\.ExternalProduct/ct-rgsw/result:value:out-history:dirty-words`, `rgsw.Evaluator.ExternalProduct/ct-rgsw/distinct-output-read-before-written`),
+	// F21 lintrans
+	rule(`lintrans\.Evaluator\.(?:EvaluateMany|EvaluateSequential|MultiplyByDiagMatrix)/ct/result:value:out-history:larger-degree`, `lintrans.Evaluator.MultiplyByDiagMatrix/ct/larger-degree-output-keeps-old-component`),
+	rule(`lintrans\.Evaluator\.MultiplyByDiagMatrixBSGS/ct/result:value:out-history:larger-degree`, `lintrans.Evaluator.MultiplyByDiagMatrixBSGS/ct/larger-degree-output-keeps-old-component`),
+	// F22 ring.DivRoundByLastModulus
+	rule(`ring\.Ring\.(?:DivRoundByLastModulus|DivRoundByLastModulusMany)/poly/input-modified:p0:.*`, `ring.Ring.DivRoundByLastModulus/poly/input-modified`),
+}
